@@ -119,7 +119,7 @@ fn replay_model(w: &Value) -> Option<Result<Vec<String>, String>> {
     let r = if model == "sender-policy" {
         replay_history(&props::c15::Sys { labels: vec![L6A, L6B, L3A, L3B, Lbl::Bcast, Lbl::ReUse], maxes: vec![0, 1, 2, 3, 4, 7, 128, 254, 255], hows: props::c15::all_hows(), long_pdu: vec![0x11u8; 65536] }, &hist).map(|x| x.0)
     } else if let Some(n) = model.strip_prefix("memory-").and_then(|s| s.strip_suffix("-slots")).and_then(|s| s.parse::<usize>().ok()) {
-        replay_history(&props::c17::Sys { slots: n, max_fresh: (n + 4) as u8 }, &hist).map(|x| x.0)
+        replay_history(&props::c17::Sys::new(n), &hist).map(|x| x.0)
     } else if let Some(n) = model.strip_prefix("receiver-").and_then(|s| s.strip_suffix("-slots")).and_then(|s| s.parse::<usize>().ok()) {
         let sys = rxmodel::Sys::new(n, 4, (0..n + 3).map(|i| 4 + i).collect(), true);
         replay_history(&sys, &hist).map(|(mut lines, st)| {
